@@ -666,7 +666,7 @@ func c08Run(c *Ctx) {
 
 func init() {
 	addCheck(&Check{ID: "C08", Level: "exploration", Journal: true, MemLimit: 6 << 30, StallS: 20,
-		Rule:   "complete enumerations over a 12-message corpus (requests of every path, responses, compact forms), each case on a fresh world with backends, static routes, a learned next hop, on UDP and on TCP (TCP also: after a valid request on the same connection, whose response arrives once the hostile bytes have been handled), followed by a sentinel request: (E1) every prefix (cut at every byte); (E2) every single-byte substitution, insertion (6-byte alphabet on 3 messages; thorough: 20-byte alphabet on all) and deletion at every offset; (E3) every field-level hostile substitution from per-field menus (Content-Length, Via sent-by, ports, missing mandatory headers, From/To/Route/Record-Route URIs, CSeq, Expires, status codes; thorough: every pair); (E4) size extremes up to 64 KiB; (E5) a soak run: one long-lived proxy takes 700 (thorough 5000) hostile TCP connections one after the other, and after every 100 a sentinel over a new TCP connection and over UDP must be relayed; (E6) configurations with omitted optional keys (a listens entry without backends): the corpus, pings addressed to the listener and to the service, a routed sentinel; oracle: no panic in any proxy goroutine, no deadlock/stall, bytes allocated while handling the input <= 1 MiB + 256 x input length, the sentinel is relayed afterwards; workers run under an address-space limit with a write-ahead journal so that an unrecoverable runtime abort is attributed to its input; non-trivial = every case",
+		Rule:   "complete enumerations over a 12-message corpus (requests of every path, responses, compact forms), each case on a fresh world with backends, static routes, a learned next hop, on UDP and on TCP (TCP also: after a valid request on the same connection, whose response arrives once the hostile bytes have been handled), followed by a sentinel request: (E1) every prefix (cut at every byte); (E2) every single-byte substitution, insertion (6-byte alphabet on 3 messages; thorough: 20-byte alphabet on all) and deletion at every offset; (E3) every field-level hostile substitution from per-field menus (Content-Length, Via sent-by, ports, missing mandatory headers, an extra header line with a hostile NAME (one byte >= 0x80, NUL, empty, blank, 70 000 bytes), From/To/Route/Record-Route URIs, CSeq, Expires, status codes; thorough: every pair); (E4) size extremes up to 64 KiB; (E5) a soak run: one long-lived proxy takes 700 (thorough 5000) hostile TCP connections one after the other, and after every 100 a sentinel over a new TCP connection and over UDP must be relayed; (E6) configurations with omitted optional keys (a listens entry without backends): the corpus, pings addressed to the listener and to the service, a routed sentinel; oracle: no panic in any proxy goroutine, no deadlock/stall, bytes allocated while handling the input <= 1 MiB + 256 x input length, the sentinel is relayed afterwards; workers run under an address-space limit with a write-ahead journal so that an unrecoverable runtime abort is attributed to its input; non-trivial = every case",
 		Assume: []string{"the coverage-guided half of the quantifier (arbitrary byte strings) belongs to another family and is replaced by the bounded exhaustive spaces above", "a peer that black-holes a TCP dial is outside what the simulation can decide"},
 		Run:    c08Run,
 		JournalSig: func(raw json.RawMessage) string {
